@@ -614,8 +614,13 @@ func TestEnumerateRecurring(t *testing.T) {
 							break
 						}
 					}
+					if form != "allday" && interval == 1 {
+						// the same series with its times given in a zone without offset changes (the reference computes
+						// instances by adding seconds, which is only right where local days all have 24 hours)
+						evs = append(evs, withTZ(evs[0], "Asia/Kolkata"))
+					}
 					for evi, ev := range evs {
-						if evi > 0 && (interval == 2 || form == "duration") {
+						if evi > 0 && (interval == 2 || form == "duration") && len(ev.Props) > 0 && !strings.Contains(mustJSON(ev), "TZID") {
 							continue // the EXDATE variants on half of the family keep the quick tier's size in check
 						}
 						// interesting instants: around every instance boundary
